@@ -5,6 +5,59 @@ import clusterlib as cl
 LABELS = ['C16.NoInternalError']
 
 
+def sequencing_runs(tier, seed, tail):
+    """Every sequencing scenario (C03 / C09 / C10 families: failures, dropped events, unanswered requests on local and
+    remote targets, lost instances, all triggers) is also a C16 run: judged here on NoInternalError only."""
+    import json
+    import random
+    import vlib
+    import seq_check as sk
+    rnd = random.Random(seed * 7717 + 16)
+    n = 150 if tier == 'quick' else 3000
+    scs = [sk.gen_start_scenario(rnd, drops=True) for _ in range(n)] + [sk.gen_stop_scenario(rnd) for _ in range(n // 2)]
+    traces = sk.run_scenarios(scs)
+    v = vlib.Verdict('C16', tier, seed)
+    allv = sk.judge(v, traces, scs, ['C16.NoInternalError'], [], tag='seq16')
+    SEQ_RESULTS.append((v, len(traces), sum(len(t['steps']) for t in traces)))
+    return []
+
+
+SEQ_RESULTS = []
+
+
+def user_sync_scenarios(tier, seed, tail):
+    """USER synchronisation: end_sync with every form of the Master argument (none, nick, full identifier, unknown) on
+    every instance, at different rounds."""
+    from recorder import Driver
+    out = []
+    cfg = cl.Config(n=3, sync=('USER',))
+    traces, recs = [], {}
+    k = 0
+    for rounds in (3, 5):
+        for caller in ('n1', 'n2'):
+            for arg in ([], ['n2'], ['n3'], ['10.0.0.2:60002'], ['n9']):
+                c = cl.make_cluster(cfg)
+                d = Driver(c)
+                try:
+                    for n in c.nodes:
+                        d.boot(n)
+                    for _ in range(rounds):
+                        d.fair_round()
+                    d.rpc(caller, 'end_sync', *arg)
+                    if arg and arg[0] in c.nodes:
+                        d.rec.steps[-1]['arg'] = arg[0]
+                    elif arg and arg[0] in c.by_identifier:
+                        d.rec.steps[-1]['arg'] = c.by_identifier[arg[0]]
+                    cl.fair_tail(d, cfg, tail)
+                finally:
+                    c.close()
+                traces.append(cl.mon_trace(k, d.rec, cfg, True, False))
+                recs[k] = d.rec
+                k += 1
+    out.append((cfg, traces, recs))
+    return out
+
+
 def main(tier, seed, replay=None):
     if replay:
         return cc.replay_file(replay)
@@ -12,6 +65,7 @@ def main(tier, seed, replay=None):
     e1 = [cl.Config(n=2, crash=1, restart=1, user=1, rounds=8),
           cl.Config(n=2, crash=1, restart=1, user=1, rounds=8, auto_fence=True, sync=('LIST', 'TIMEOUT')),
           cl.Config(n=3, crash=1, rounds=8, fail='RESYNC', sync=('LIST',)),
+          cl.Config(n=3, crash=1, rounds=7, hold=True, sync=('TIMEOUT',)),
           cl.Config(n=2, slow=[(1, 1)], crash=1, restart=1, rounds=9)]
     if not q:
         e1 += [cl.Config(n=3, crash=1, restart=1, rounds=11),
@@ -28,5 +82,6 @@ def main(tier, seed, replay=None):
     return cc.run('C16', tier, seed, LABELS, [], e1, ['NoErr'], ['StepsC16'], sim, rnd,
                   n_beh=48 if q else 400, beh_depth=150, n_rnd=50 if q else 500, rnd_steps=300,
                   e1_timeout=600 if q else 2400, inject=True,
+                  extra_scenarios=[user_sync_scenarios, sequencing_runs, cl.hold_distribution_scenarios],
                   notes=['the object-level partial operations are covered by the other families: every check '
                          'records internal errors of its own runs (C11 err, C17 non-RPCError exceptions, ...)'])
